@@ -7,7 +7,7 @@ Import ListNotations.
 (* ---- value: the plain array operation, cell by cell ---- *)
 Theorem C08_value_is_array_op :
   forall o d r x k,
-  wf d -> wf_rhs r -> binop o d r = Ok x -> (k < prod (shape d))%nat ->
+  wf d -> wf_rhs r -> same_shape_rhs d r -> binop o d r = Ok x -> (k < prod (shape d))%nat ->
   nth k (value x) fzero
   = cell_val o (nth k (value d) fzero)
                (match r with
@@ -17,6 +17,20 @@ Theorem C08_value_is_array_op :
                 end).
 Proof. exact binop_value_cells. Qed.
 Print Assumptions C08_value_is_array_op.
+
+(* an ndarray of another shape: numpy broadcasting ([bshape], [bcast]); whatever
+   is returned went through __init__ and is a well-formed dataset with the left
+   operand's bins and name, otherwise the operation raises *)
+Theorem C08_broadcast_array_result_is_well_formed :
+  forall o d sh a x,
+  sh <> shape d -> binop o d (RArr sh a) = Ok x ->
+  exists bs, bshape (shape d) sh = Some bs /\ wf x /\ shape x = bs
+    /\ value x = zipw (cell_val o) (bcast (shape d) bs (value d)) (bcast sh bs a)
+    /\ (error x = error d \/
+        error x = zipw (cell_err_dc o) (bcast (shape d) bs (error d)) (bcast sh bs a))
+    /\ bins x = bins d /\ name x = name d.
+Proof. exact binop_arr_broadcast. Qed.
+Print Assumptions C08_broadcast_array_result_is_well_formed.
 
 Theorem C08_cell_value_is_ieee_op :
   forall o v1 v2,
@@ -132,7 +146,9 @@ Print Assumptions C08_chain_well_formed.
 
 (* ---- the left operand's shape, bins and name are kept ---- *)
 Theorem C08_left_bins_kept :
-  forall o d r x, binop o d r = Ok x -> shape x = shape d /\ bins x = bins d /\ name x = name d.
+  forall o d r x,
+  binop o d r = Ok x ->
+  bins x = bins d /\ name x = name d /\ (same_shape_rhs d r -> shape x = shape d).
 Proof. exact binop_keeps. Qed.
 Print Assumptions C08_left_bins_kept.
 
@@ -140,7 +156,8 @@ Theorem C08_chain_keeps_left_bins :
   forall ops d x,
   run_chain d ops = Ok x ->
   name x = name d /\ sublist (bins x) (bins d) /\
-  (forallb (fun o => negb (is_squeeze o)) ops = true -> shape x = shape d /\ bins x = bins d).
+  (forallb (fun o => negb (is_squeeze o)) ops = true -> bins x = bins d) /\
+  (forallb (fun o => negb (may_reshape o)) ops = true -> shape x = shape d).
 Proof. exact chain_keeps. Qed.
 Print Assumptions C08_chain_keeps_left_bins.
 
